@@ -4,7 +4,7 @@
 (* (the `valid` field of a message in Psm.tla), over an abstract message:    *)
 (*   [kind, hflags, avps]                                                   *)
 (* kind in {CER, CEA, DWR, DWA, DPR, DPA}; hflags the header flag byte;      *)
-(* avps a sequence of [c, fl, d]: c the AVP (OH Origin-Host, OR Origin-Realm,*)
+(* avps a sequence of [c, fl, d, vs]: c the AVP (OH Origin-Host, OR Origin-Realm,*)
 (* HIP Host-IP-Address, VID Vendor-Id, PN Product-Name, OSI Origin-State-Id, *)
 (* RC Result-Code, DC Disconnect-Cause, OTHER), fl its flag byte, d what its  *)
 (* data says ("peer" / "local" / "other" identity; "rebooting" / "busy").     *)
@@ -27,8 +27,12 @@ OkOR(a) == a.c = "OR" /\ a.fl = 64 /\ a.d = "peer"
 OkRC(a) == a.c = "RC" /\ a.fl = 64
 OkDC(a) == a.c = "DC" /\ a.d = "rebooting"
 CntC(s, c) == Cardinality({i \in 1..Len(s) : s[i].c = c})
+\* vs: "none" for the base-protocol AVP; "short" / "long" for a vendor-specific AVP (V flag, another vendor's code space) that
+\* happens to have the same code, with 2 / 8 octets of data.  Such an AVP is not a Host-IP-Address (no family and address
+\* octets to read): it does not count.  The validators of the other AVPs look at the code alone (as implemented).
+CntHIP(s) == Cardinality({i \in 1..Len(s) : s[i].c = "HIP" /\ s[i].vs = "none"})
 Ident(s) == Cnt(s, OkOH) + Cnt(s, OkOR)
-Capx(s) == Ident(s) + CntC(s, "HIP") + CntC(s, "VID") + CntC(s, "PN")
+Capx(s) == Ident(s) + CntHIP(s) + CntC(s, "VID") + CntC(s, "PN")
 
 ValidCountOnly(m) ==
     LET s == m.avps
@@ -43,7 +47,7 @@ ValidCountOnly(m) ==
 Valid(m) == ValidCountOnly(m) /\ Cnt(m.avps, OkOH) = 1 /\ Cnt(m.avps, OkOR) = 1
 
 (* ---- the enumerated universe: the standard message of each kind and every single mutation of it *)
-A(c, d) == [c |-> c, fl |-> 64, d |-> d]
+A(c, d) == [c |-> c, fl |-> 64, d |-> d, vs |-> "none"]
 Std(kind) == CASE kind = "CER" -> <<A("OH", "peer"), A("OR", "peer"), A("HIP", "x"), A("VID", "x"), A("PN", "x")>>
                [] kind = "CEA" -> <<A("RC", "x"), A("OH", "peer"), A("OR", "peer"), A("HIP", "x"), A("VID", "x"), A("PN", "x")>>
                [] kind = "DWR" -> <<A("OH", "peer"), A("OR", "peer")>>
@@ -59,6 +63,7 @@ Mutations(s) ==
     \cup {[s EXCEPT ![i].fl = f] : i \in 1..Len(s), f \in {0, 96}}
     \cup {[s EXCEPT ![i].d = d] : i \in {j \in 1..Len(s) : s[j].c \in {"OH", "OR"}}, d \in {"local", "other"}}
     \cup {[s EXCEPT ![i].d = "busy"] : i \in {j \in 1..Len(s) : s[j].c = "DC"}}
+    \cup {[s EXCEPT ![i] = [c |-> s[i].c, fl |-> 192, d |-> "x", vs |-> v]] : i \in 1..Len(s), v \in {"short", "long"}}
     \cup {s \o <<A("OSI", "x")>>, s \o <<A("OSI", "x"), A("OSI", "x")>>, s \o <<A("OTHER", "x")>>, <<A("OTHER", "x")>> \o s}
 Kinds == {"CER", "CEA", "DWR", "DWA", "DPR", "DPA"}
 \* (the R bit is what makes a message a request: the kind fixes it; the other bits vary)
